@@ -340,6 +340,7 @@ fn e2e_inner(line: &str) -> anyhow::Result<String> {
     let mut diffs: Vec<String> = Vec::new();
     let mut stale: Vec<String> = Vec::new();
     let (mut cached_steps, mut listing_checks, mut planted, mut bad_before_total) = (0u32, 0u32, 0u32, 0u32);
+    let (mut foreign_live, mut aborted) = (false, false);
 
     // one step on one store through one kind of handle
     let run_step = |store: Arc<dyn WriteBackend>, opts: &RepositoryOptions, op: u64, arg: u64| -> anyhow::Result<String> {
@@ -410,6 +411,7 @@ fn e2e_inner(line: &str) -> anyhow::Result<String> {
                                 let (_, sz, p) = &files[r.below(files.len() as u64) as usize];
                                 std::fs::write(p, Content::Random { seed: r.next(), len: *sz as usize + 40 }.bytes())?;
                                 planted += 1;
+                                foreign_live = true;
                             }
                         }
                         1 if !files.is_empty() => {
@@ -454,7 +456,26 @@ fn e2e_inner(line: &str) -> anyhow::Result<String> {
             }
         }
         let _ = b_rec.take_log();
-        let rb = if use_cache { run_step(b_rec.clone(), &copts, op, arg)? } else { run_step(b.clone(), &repo_opts(), op, arg)? };
+        // an error of the step on B while the same step succeeded on A is a difference (not a harness
+        // failure): recorded, and the history ends there because the two stores have diverged
+        let rb_res = if use_cache { run_step(b_rec.clone(), &copts, op, arg) } else { run_step(b.clone(), &repo_opts(), op, arg) };
+        let rb = match rb_res {
+            Ok(s) => s,
+            Err(e) => {
+                let msg: String = format!("{e:#}").replace('\n', " ").chars().take(160).collect();
+                diffs.push(format!(
+                    "step {k}{}: uncached `{ra}` vs {} ERROR `{msg}`",
+                    if foreign_live { " [foreign-longer-pack-in-cache]" } else { "" },
+                    if use_cache { "cached" } else { "mixed" }
+                ));
+                aborted = true;
+                break;
+            }
+        };
+        if use_cache && op == 3 {
+            // check's clean-up through the cached handle evicts wrong-size packs
+            foreign_live = false;
+        }
         let listed: std::collections::BTreeSet<usize> =
             b_rec.take_log().iter().filter(|o| o.kind == OpKind::List).map(|o| tnum(o.tpe)).collect();
         if ra != rb {
@@ -489,7 +510,7 @@ fn e2e_inner(line: &str) -> anyhow::Result<String> {
         Ok(format!("trees={} blobs={} check={ok}", trees.join(","), blobs.join(",")))
     };
     let (fa, fb) = (fin(a.clone())?, fin(b.clone())?);
-    if fa != fb {
+    if fa != fb && !aborted {
         diffs.push(format!("final: `{fa}` vs `{fb}`"));
     }
     Ok(format!(
